@@ -355,7 +355,7 @@ class _SpyneJsonRpc1(JsonDocument):
                                           zip(ctx.in_header_doc, header_class)):
                     if header_doc is not None and i < len(header_doc):
                         headers[i] = self._doc_to_object(ctx, head_class,
-                                                                     header_doc)
+                                                     header_doc, self.validator)
 
                 if len(headers) == 1:
                     ctx.in_header = headers[0]
@@ -366,7 +366,7 @@ class _SpyneJsonRpc1(JsonDocument):
                 ctx.in_object = [None] * len(body_class._type_info)
             else:
                 ctx.in_object = self._doc_to_object(ctx, body_class,
-                                                                ctx.in_body_doc)
+                                                ctx.in_body_doc, self.validator)
 
         self.event_manager.fire_event('after_deserialize', ctx)
 
